@@ -108,6 +108,7 @@ type EvPersist struct {
 	Foot   Footer `json:"foot"`  // footer fields parsed at the fixed positions from the end
 	Bytes  B      `json:"bytes"` // file bytes when small enough for TLC to decode the layout, else []
 	Path   string `json:"path"`  // a kept copy of that file (for the leaf decoders)
+	Stray  int    `json:"stray"` // files the operation left in the directory besides its destination
 }
 
 type EvOpen struct {
@@ -139,6 +140,7 @@ type EvMerge struct {
 	Engine bool   `json:"engine"` // an engine failure was injected into this merge
 	Bytes  B      `json:"bytes"`
 	Path   string `json:"path"`
+	Stray  int    `json:"stray"` // files the operation left in the directory besides its destination
 }
 
 type DvWalkVisit struct {
@@ -458,6 +460,13 @@ func (l *Life) Reset(lcm int, tag string) {
 	l.fileL = map[int]map[int]bool{}
 	l.nextSid, l.nextFil = 0, 0
 	zap.LegacyChunkMode = uint32(lcm)
+	// configuration that must not matter for the content: the merger's buffer size (derived from the tag, so that a
+	// re-run of the scenario uses the same one)
+	h := 0
+	for _, c := range tag {
+		h = h*31 + int(c)
+	}
+	zap.DefaultFileMergerBufferSize = []int{1024 * 1024, 64, 4096, 1024 * 1024, 333}[((h%5)+5)%5]
 	l.tr.Emit(EvReset{Ev: "reset", LCM: lcm, Tag: tag})
 }
 
@@ -568,6 +577,28 @@ func junkSiblings(path string, k int) func() {
 	}
 }
 
+// dirNames lists a directory; strayCount says how many entries an operation added besides its destination
+// (an operation owns its destination path and nothing else: temporary files must be gone when it returns).
+func dirNames(dir string) map[string]bool {
+	m := map[string]bool{}
+	if es, err := os.ReadDir(dir); err == nil {
+		for _, e := range es {
+			m[e.Name()] = true
+		}
+	}
+	return m
+}
+
+func strayCount(before map[string]bool, path string) int {
+	n := 0
+	for name := range dirNames(filepath.Dir(path)) {
+		if !before[name] && name != filepath.Base(path) {
+			n++
+		}
+	}
+	return n
+}
+
 // staleDest prepares the destination: usually absent, for every fourth file a longer file of foreign bytes
 // (what an interrupted earlier writer of the same name leaves behind) that the operation has to replace.
 func staleDest(path string, k int) {
@@ -589,6 +620,7 @@ func (l *Life) Persist(h *hseg) int {
 		fatal2("segment %d is not unpersisted", h.sid)
 	}
 	unjunk := junkSiblings(path, k)
+	before := dirNames(filepath.Dir(path))
 	opBegin("Persist")
 	var err error
 	func() {
@@ -600,6 +632,7 @@ func (l *Life) Persist(h *hseg) int {
 		err = us.Persist(path)
 	}()
 	opEnd()
+	ev.Stray = strayCount(before, path)
 	unjunk()
 	ev.Err = err != nil
 	data, rerr := os.ReadFile(path)
@@ -709,6 +742,8 @@ func (l *Life) Merge(ins []*hseg, drops []Drop, mode int) (int, bool) {
 		}()
 		unjunk := junkSiblings(path, k)
 		defer unjunk()
+		before := dirNames(filepath.Dir(path))
+		defer func() { ev.Stray = strayCount(before, path) }()
 		opBegin("Merge")
 		maps, size, err = l.plugin.Merge(segs, bms, path, nil, nil)
 		opEnd()
